@@ -336,7 +336,7 @@ func lenCallsOf(f *ssa.Function, v ssa.Value) []ssa.Value {
 
 // R08.1 + R09.2
 var ruleTruncTable = &core.Rule{ID: "R08.1", Min: 7,
-	Doc: "truncation table of the JSON helper: over the order types of (limit = 0?, len vs limit) the whole-document criterion (parsed == len) is selected iff limit = 0 or len < limit, otherwise the truncated criterion (inspected == len and len > 0); verdicts are equalities with the input length",
+	Doc: "truncation table of the JSON helper: over the order types of (limit = 0?, len vs limit) the whole-document criterion (parsed == len) is selected iff limit = 0 or len < limit, otherwise the truncated criterion (inspected == len and len > 0); verdicts are equalities with the input length; nine sample points (limit, len, parsed, inspected) of the verdict table are evaluated, the one-byte header included",
 	Run: func(c *core.Ctx, s *core.Sink) {
 		f, pcall := jsonHelperFn(c)
 		lim := limitParam(f)
@@ -813,7 +813,7 @@ func tabulateDispatch(c *core.Ctx, m *jsonModel, f *ssa.Function) [256]dispatchO
 
 // R09.3
 var ruleSeparators = &core.Rule{ID: "R09.3", Min: 6,
-	Doc: "separators and closers, tabulated over 0..255 from the container loops: the value dispatch sends '[' to the array scanner, '{' to the object scanner, '\"' to the string scanner; after a value in an array only ',' continues and only ']' closes; in an object only ',' continues and only '}' closes; a key must start with '\"' and be followed by ':'; every other byte fails the container; loads of the same input byte are one test",
+	Doc: "separators and closers, tabulated over 0..255 from the container loops: the value dispatch sends '[' to the array scanner, '{' to the object scanner, '\"' to the string scanner; after a value in an array only ',' continues and only ']' closes; in an object only ',' continues and only '}' closes; a key must start with '\"' and be followed by ':'; every other byte fails the container; loads of the same input byte are one test; each grammar point has its test (key quote, colon, comma, closers): a removed test is a violation, not a shorter table list",
 	Run: func(c *core.Ctx, s *core.Sink) {
 		m := getJSON(c)
 		g := m.guardFn
